@@ -38,6 +38,8 @@ CONSTANTS SafeStore,        \* TRUE: a pre-populated *[][]string is replaced wha
                             \* FALSE: mutated model, a destination with enough capacity is resliced in place
           RewindsSeekable,  \* FALSE: a seekable source is read from where the caller left it (the code)
                             \* TRUE: mutated model, the payload is rewound to offset 0 first
+          PipeClosedOnStop, \* TRUE: when the records stop being piped (error) the pipe fed by an io.WriterTo source is closed (the code)
+                            \* FALSE: mutated model, it is left open: a WriteTo with a Write pending never returns, nor does Produce
           FlagsReset        \* TRUE: LazyQuotes / TrimLeadingSpace / ReuseRecord of a caller-supplied *csv.Reader are set
                             \*       to the option values, on or off (the code)
                             \* FALSE: mutated model, flags are only switched on: a stale flag survives
@@ -107,6 +109,9 @@ Stale(c) == IF "stale" \in DOMAIN c THEN c.stale ELSE FALSE
 Whole(c) == IF "whole" \in DOMAIN c THEN c.whole ELSE [table |-> c.table, bad |-> c.bad]
 SameVar(c) == IF "samevar" \in DOMAIN c THEN c.samevar ELSE FALSE
 
+(* o.hang (optional): the call did not return *)
+Hang(o) == IF "hang" \in DOMAIN o THEN o.hang ELSE FALSE
+
 Out(err, delivered, alias, panic) == [err |-> err, delivered |-> delivered, alias |-> alias, panic |-> panic]
 
 LastRead(c) == IF c.table = <<>> THEN <<>> ELSE c.table[Len(c.table)]
@@ -142,7 +147,8 @@ Produce(c) ==
          IN Out(r.err, r.recs, FALSE, FALSE)
     [] c.kind = "writerto" ->             \* WriteTo feeds a pipe in a goroutine; the reading side's error is the result
          LET r == PipeCSV(c.table, c.bad, c.skip) IN
-         Out(IF r.err = "parse" /\ HasTail(c) /\ ~ParseErrorWins THEN "other" ELSE r.err, r.recs, FALSE, FALSE)
+         [err |-> IF r.err = "parse" /\ HasTail(c) /\ ~ParseErrorWins THEN "other" ELSE r.err, delivered |-> r.recs,
+          alias |-> FALSE, panic |-> FALSE, hang |-> r.err # "none" /\ HasTail(c) /\ ~PipeClosedOnStop]
     [] c.kind = "binm" ->                                                 \* csv.NewReader(buf): options not applied
          LET t == IF BinMarshalerOpts THEN [table |-> c.table, bad |-> c.bad] ELSE c.alt
              r == BufferedCSV(t.table, t.bad, c.skip)
@@ -166,6 +172,7 @@ Supported(c) == IF c.dir = "consume" THEN c.kind \in DstSupported ELSE c.kind \i
 
 Allowed(c, o) ==
   /\ ~o.panic
+  /\ ~Hang(o)                                                \* every call returns
   /\ IF ~Supported(c) THEN o.err # "none"                     \* unsupported, nil, typed-nil, non-pointer: an error
      ELSE IF c.bad THEN o.err = "parse"                       \* the PARSER's error (every kind the same), not partial success
      ELSE /\ o.err = "none"
@@ -174,6 +181,7 @@ Allowed(c, o) ==
 
 WhyNot(c, o) ==
   IF o.panic THEN "panic"
+  ELSE IF Hang(o) THEN "call-did-not-return"
   ELSE IF ~Supported(c) THEN "unsupported-kind-accepted"
   ELSE IF c.bad THEN (IF o.err = "none" THEN "malformed-input-accepted" ELSE "not-the-parsers-error")
   ELSE IF o.err # "none" THEN "unexpected-error"
@@ -190,10 +198,11 @@ WhyNot(c, o) ==
 (***************************************************************************)
 StressModel(c, n) ==
   LET o == Model(c) IN
-  [calls |-> n, parse |-> IF o.err = "parse" THEN n ELSE 0,
+  [hang |-> Hang(o), calls |-> n, parse |-> IF o.err = "parse" THEN n ELSE 0,
    none |-> IF o.err = "none" THEN n ELSE 0, other |-> IF o.err \notin {"parse", "none"} THEN n ELSE 0]
 
 StressAllowed(c, n, o) ==
+  /\ ~Hang(o)
   /\ o.calls = n
   /\ c.bad => (o.parse = n /\ o.other = 0 /\ o.none = 0)
   /\ (~c.bad /\ Supported(c)) => (o.none = n /\ o.other = 0 /\ o.parse = 0)
